@@ -156,6 +156,40 @@ def _booltable_norm(tree):
     return T().visit(tree)
 
 
+def _optdefault_norm(tree):
+    """`<..>.options.get('key') or <empty literal>` and `<..>.options.get('key', <empty literal>) or <empty literal>`  ->
+    `<..>.options.get('key', <empty literal>)`: an option that is present holds a value of its documented type, so the `or` only
+    replaces an empty value by an empty value of the same kind (it matters for an option explicitly set to None, which is outside
+    every property's domain)"""
+    def empty(e):
+        return (isinstance(e, ast.Constant) and e.value in ('', 0) and not isinstance(e.value, bool)) or (isinstance(e, (ast.List, ast.Tuple)) and not e.elts) \
+            or (isinstance(e, ast.Dict) and not e.keys)
+
+    def optread(e):
+        if not (isinstance(e, ast.Call) and isinstance(e.func, ast.Attribute) and e.func.attr == 'get' and 1 <= len(e.args) <= 2
+                and isinstance(e.args[0], ast.Constant) and isinstance(e.args[0].value, str) and not e.keywords):
+            return False
+        r = e.func.value
+        # configuration options are spelled `section.name` (plus `inlineElements`); the formatter profiles (`beforeName`, ..) are not options
+        k = e.args[0].value
+        return ((isinstance(r, ast.Attribute) and r.attr == 'options') or (isinstance(r, ast.Name) and r.id == 'options')) and ('.' in k or k == 'inlineElements')
+
+    class T(ast.NodeTransformer):
+        # canonical spelling: the bare read `<..>.options.get('key')`
+        def visit_BoolOp(self, n):
+            self.generic_visit(n)
+            if isinstance(n.op, ast.Or) and len(n.values) == 2 and optread(n.values[0]) and empty(n.values[1]) and len(n.values[0].args) == 1:
+                return n.values[0]
+            return n
+
+        def visit_Call(self, n):
+            self.generic_visit(n)
+            if optread(n) and len(n.args) == 2 and empty(n.args[1]):
+                n.args = n.args[:1]
+            return n
+    return T().visit(tree)
+
+
 class Module:
     def __init__(self, name, path, relpath, src):
         self.name = name
@@ -163,7 +197,7 @@ class Module:
         self.relpath = relpath
         self.src = src
         self.sha256 = hashlib.sha256(src.encode('utf-8')).hexdigest()
-        self.tree = _booltable_norm(_reflect_norm(ast.parse(src, filename=path)))
+        self.tree = _optdefault_norm(_booltable_norm(_reflect_norm(ast.parse(src, filename=path))))
         self.is_package = os.path.basename(path) == '__init__.py'
         self.bindings = {}     # name -> Binding
         self.funcs = {}        # top-level functions
